@@ -1119,6 +1119,37 @@ func (rpl *c2Replayer) replay(b gateBehaviour, idx int, variant int, only map[st
 				}
 			case st.Rq.Scope == "repo" && st.Rq.Action == "instance":
 				do("POST", "/api/repo/"+u+"/instance", []byte(`{"typename":"keyvalue","dataname":"other"}`), st.Tok, st.Out)
+			case st.Rq.Scope == "rpc":
+				// the same step as a command of the RPC path (c02_rpc.go)
+				if st.Rq.Action == "child" && !refusedWanted && st.Locked && len(lk) >= b.MaxNodes {
+					continue // the model's node bound, not the server, stops this step
+				}
+				gen++
+				ss, childUUID := rpl.rpcStep(w, st, u, fmt.Sprintf("%d-%d", idx, i), 3+gen)
+				sent = append(sent, ss...)
+				if !refusedWanted {
+					okc := 0
+					for _, se := range ss {
+						if se.Status == 200 {
+							okc++
+						}
+					}
+					switch st.Rq.Action {
+					case "child":
+						if st.Locked {
+							if childUUID == "" {
+								fail("child-creation-refused", i, nil, "creating a child version of a committed node must stay allowed (RPC command)")
+								return
+							}
+							uuids[len(lk)+1] = childUUID
+							kids[st.V]++
+						}
+					case "data-write":
+						if okc == 0 && len(ss) > 0 {
+							desync("the specification lets the RPC writes at node %d run (mode %s) but the server accepted none: %v", st.V, st.Mode, ss[:1])
+						}
+					}
+				}
 			default:
 				infra("behaviour step %d: request class %+v not mapped", i, st.Rq)
 			}
@@ -1373,11 +1404,41 @@ func checkC02(c *Ctx) int {
 	})
 	sw := &c2Sweeper{c: c, run: run, table: table, routes: routes, st: st, withAdminPass: c.thorough()}
 	rpl := &c2Replayer{c: c, run: run, st: st}
-	nItems := len(chunks) + len(behaviours)
+	// the RPC command path: every command the source dispatches on, at the committed nodes (c02_rpc.go)
+	type rpcChunk struct {
+		cfg            c2Config
+		variant, group int
+	}
+	var rpcChunks []rpcChunk
+	for _, v := range variants {
+		for _, md := range allModes {
+			for g := range c2RPCGroups {
+				if len(variants) > 1 && v != variants[0] && md != "default" {
+					continue
+				}
+				rpcChunks = append(rpcChunks, rpcChunk{c2Config{md, false}, v, g})
+			}
+		}
+	}
+	var tRPC int64
+	if os.Getenv("C02_RPC_ONLY") != "" { // development aid
+		chunks = nil
+		if os.Getenv("C02_RPC_ONLY") == "sweep" {
+			behaviours = nil
+		}
+	}
+	nItems := len(chunks) + len(behaviours) + len(rpcChunks)
 	var tSweep, tReplay int64
 	parallel(nItems, 14, func(_, i int) {
 		t := time.Now()
-		if i < len(chunks) {
+		if i >= len(chunks)+len(behaviours) {
+			rc := rpcChunks[i-len(chunks)-len(behaviours)]
+			sw.sweepRPC(rc.cfg, rc.variant, rc.group, c.Seed*104729+int64(i))
+			atomic.AddInt64(&tRPC, int64(time.Since(t)))
+			if os.Getenv("C02_DEBUG") != "" {
+				fmt.Printf("DEBUG rpc chunk %v v%d group %d: %.1fs\n", rc.cfg, rc.variant, rc.group, time.Since(t).Seconds())
+			}
+		} else if i < len(chunks) {
 			ch := chunks[i]
 			sw.sweepChunk(ch.cfg, ch.variant, ch.inst, ch.restart, c.Seed*7919+int64(i), ch.full, ch.part, ch.parts)
 			atomic.AddInt64(&tSweep, int64(time.Since(t)))
@@ -1474,6 +1535,7 @@ func checkC02(c *Ctx) int {
 			fmt.Println("DEBUG trouble:", t)
 		}
 	}
+	c2RPCEvidence(run, time.Duration(tRPC).Seconds(), len(rpcChunks))
 	run.Set("sweep_cpu_s", time.Duration(tSweep).Seconds())
 	run.Set("replay_cpu_s", time.Duration(tReplay).Seconds())
 	run.Set("tlc_models", fmt.Sprintf("Gate gate-config (2 nodes, every request class x node x token, 3 start modes, mode switches, restart): %d states / %d transitions; Gate history-configs (writes, commits, children, merges, second instance, deletion, restart): 3 nodes with notes %d states / %d transitions, 4 nodes %d states / %d transitions; Act_C02_Frozen, Act_RefusedIsStutter, Act_CommitIsPermanent, TableClaims",
